@@ -92,9 +92,28 @@ class Mapping(SHarness):
             for m in range(1, 7 if tier == 'quick' else 10):
                 for k in ('complete', 'functional', 'injective', 'nondecreasing'):
                     yield {'shape': 'binary', 'n': n, 'm': m, 'kind': k, 'cls': 'OPB' if (n + m) % 3 == 0 else 'CNF'}
+        # several mappings in ONE formula: another mapping (wider, narrower, of another shape) is created in the same formula
+        # before the one that is constrained; its variables stay unconstrained
+        for n in range(1, 3):
+            for m in (2, 3, 5, 6):
+                for k in ('complete', 'functional', 'injective', 'nondecreasing'):
+                    for other in (['binary', 2, 8], ['binary', 1, 16], ['binary', 1, 2], ['unary', 2, 3], ['binary', 3, m]):
+                        yield {'shape': 'binary', 'n': n, 'm': m, 'kind': k, 'cls': 'OPB' if (n + m + other[2]) % 3 == 0 else 'CNF',
+                               'other': other}
+        for n in range(1, 3):
+            for m in range(1, 4):
+                for k in KINDS:
+                    for other in (['unary', 3, 4], ['binary', 2, 5], ['unary', n, m]):
+                        yield {'shape': 'unary', 'n': n, 'm': m, 'kind': k, 'cls': 'CNF' if (n + m) % 2 else 'OPB', 'other': other}
 
     def build(self, p):
         F = formula_class(p['cls'])()
+        if p.get('other'):
+            sh, on, om = p['other']
+            if sh == 'binary':
+                F.new_binary_mapping(on, om, label='w({},{})')
+            else:
+                F.new_mapping(on, om, label='g({})={}')
         if p['shape'] == 'unary':
             f = F.new_mapping(p['n'], p['m'])
         elif p['shape'] == 'sparse':
